@@ -16,6 +16,7 @@ def shape_tables(model):
 
 
 def check(rep, model, tier):
+    _doc_defaults(rep, model)
     rep.rule('DEF', 'every shape column of compute_shape_features, per centring, has the same normal form as the documented '
                     'definition (sa/refspec/shape.py) evaluated on the returned sample columns and the original signal')
     rep.rule('COLSET', 'the returned table has exactly the documented shape columns plus the six sample columns of its centring')
@@ -116,3 +117,8 @@ def standalone(rep, model):
         f, r, ctx = run('compute_band_amp', {'df_samples': St, 'sig': sig, 'fs': ('param', 'fs'), 'f_range': ('param', 'f_range'), 'n_cycles': ('param', 'n_cycles')})
         spec2, _ = E.spec('shape_features', {'S': St, 'x': sig, 'fs': ('param', 'fs'), 'f_range': ('param', 'f_range'), 'n_cycles': ('param', 'n_cycles'), 'centre': C('peak')})
         rep.compare('DEF-STANDALONE', 'compute_band_amp', f'{f.path}:{f.node.lineno} compute_band_amp', r, dict(spec2[1])['band_amp'], ctx.unmodelled)
+
+
+def _doc_defaults(rep, model):
+    from . import common as _c
+    _c.doc_defaults(rep, model, ['compute_shape_features', 'compute_band_amp', 'compute_symmetry'])
